@@ -124,6 +124,56 @@ def check_add(pr, cr, ty, order, fname, mk_state, reader, add_call, keyfmt):
 
 
 # ---- merge --------------------------------------------------------------------------------------
+def states_equal(a, b):
+    """Field-wise equality of two states of the same type (structural, else rational normal form)."""
+    import backends
+    ra, rb = read_state(a), read_state(b)
+    return all(ra[k] == rb[k] or backends.sympy_equal(real(ra[k]), real(rb[k])) for k in ra)
+
+
+def merge_contract(cr, inner, candidates, used):
+    """Contract of <inner as Merge>::merge as proved by its own obligations: requires rep(self, Pa), rep(other, Pb)
+    (both non-empty here); ensures rep(self, Pa + Pb) and other unchanged.  candidates: list of (Pa, Pb)."""
+    def handler(ex, recv, args):
+        other = args[0]
+        other = ex.deref(other) if isinstance(other, Ref) else other
+        for Pa, Pb in candidates:
+            if states_equal(recv, rep_state(cr, inner, Pa, "a")) and states_equal(other, rep_state(cr, inner, Pb, "b")):
+                post = rep_state(cr, inner, Pa.plus(Pb), "")
+                recv.clear()
+                recv.update(post)
+                used.append("<%s as Merge>::merge" % inner)
+                return ()
+        ex.oblige("callee_requires", tm.FALSE, None, "requires of <%s as Merge>::merge (receiver and argument represent summaries)" % inner)
+        return ()
+    return handler
+
+
+def check_merge_modular(pr, cr, ty, order, fname):
+    """<ty as Merge>::merge, both operands non-empty, with the nested merge of the embedded estimator replaced by that
+    estimator's CONTRACT instead of its body: the caller is checked against the callee's contract."""
+    inner = INNER[ty]
+    Pa, Pb = PowerSums.symbolic("a", order), PowerSums.symbolic("b", order)
+    hyps = [Pa.n.ge(1), Pa.n.lt(NMAX), Pb.n.ge(1), Pb.n.lt(NMAX)]
+    Pu = Pa.plus(Pb)
+    used = []
+    ex = Exec(cr)
+    ex.contracts = {(inner, "merge"): merge_contract(cr, inner, [(Pa, Pb)], used)}
+    paths = ex.run(lambda: ({"self": rep_state(cr, ty, Pa, "a"), "other": rep_state(cr, ty, Pb, "b")}, list(hyps)),
+                   lambda e, r: e.call(ty, "merge", r["self"], [Ref(r["other"])]))
+    pre = "%s.merge[both].via_contract_of_%s_merge" % (ty, inner)
+    pr.no_panic(pre + ".no_panic", fname, paths)
+    pr.sides(pre, fname, paths)
+    pr.holds(pre + ".callee_contract_applied", fname, [], TRUE if used else tm.FALSE)
+    for p in paths:
+        if p.panic:
+            continue
+        got = read_state(p.state["self"])
+        want = expected(Pu, order, got.keys())
+        for k in sorted(got):
+            pr.eq("%s.rep_%s" % (pre, keyfmt_std(k)), fname, p.pc, real(got[k]), real(want[k]), cls={"case": "both", "field": k, "modular": True})
+
+
 def check_merge(pr, cr, ty, order, fname, mk_state, reader, merge_call, keyfmt):
     cases = [("both", True, True), ("b_empty", True, False), ("a_empty", False, True), ("both_empty", False, False)]
     for cname, a_ne, b_ne in cases:
